@@ -60,9 +60,13 @@ def sh_cases(seed, big):
         out.append({"id": "sh%d" % i, "kind": "sh", "stages": [[cp("cat"), cp("a"), cp("b b")], [cp("wc"), cp("-l"), cp("x y"), cp("z")]],
                     "shown_early": how})
         i += 1
-    # program names that need quoting, empty program name
-    for prog in ("", "my prog", "it's", "a|b", "x=1"):
+    # program names that need quoting, empty program name -- with an argument, and as the whole command
+    for prog in ("", "my prog", "it's", "a|b", "x=1", "$HOME", "~", "*", "two\nlines", "/opt/my tools/run"):
         out.append({"id": "sh%d" % i, "kind": "sh", "stages": [[cp(prog), cp("arg")]]})
+        i += 1
+        out.append({"id": "sh%d" % i, "kind": "sh", "stages": [[cp(prog)]]})
+        i += 1
+        out.append({"id": "sh%d" % i, "kind": "sh", "stages": [[cp(prog)], [cp("wc")], [cp(prog), cp("x")]]})
         i += 1
     # pipelines of 2..4 stages
     for _ in range(120 if big else 30):
